@@ -237,6 +237,20 @@ let dmeta_handler args =
 let () =
   (* DNEG <name> <schema>: does the model's acceptance predicate take the definition? *)
   register "DNEG" (fun args -> match args with _ :: st :: _ -> if schema_ok (fst (parse_schema st)) then "accepted" else "rejected" | _ -> "?bad-DNEG");
+  (* DBIG: two hand-written definitions with the indices 4294967294 / 4294967295 (above idx_max: derived CborLen does not compile
+     for them, so they are outside the schema model); the documented format written out by hand: map entries in ascending key order,
+     absent optional values omitted; [variant index, body] *)
+  register "DBIG" (fun args ->
+    let b1 n = Printf.sprintf "%02x" n in
+    let u8 s = let n = int_of_string s in if n < 24 then b1 n else "18" ^ b1 n in
+    match args with
+    | ["m"; v; e; o] ->
+        let ents = [("00", Some v); ("1afffffffe", (if o = "-" then None else Some o)); ("1affffffff", (if e = "-" then None else Some e))] in
+        let present = List.filter_map (fun (k, x) -> match x with Some x -> Some (k ^ u8 x) | None -> None) ents in
+        Printf.sprintf "a%d%s" (List.length present) (String.concat "" present)
+    | ["e"; "0"; _] -> "820080"
+    | ["e"; _; x] -> "821affffffff81" ^ u8 x
+    | _ -> "?bad-DBIG");
   register "DENC" denc_handler;
   register "DLEN" dlen_handler;
   register "DDEC" ddec_handler;
